@@ -432,17 +432,32 @@ class Resolver:
                     return Py(mt, _qual(mt))
         return None
 
-    def member_type(self, T, attr: str):
-        """Declared type of attribute `attr` of dependency class T (from pulser's annotations)."""
+    def member_hint(self, T, attr: str):
+        """Declared (raw) type hint of attribute `attr` of dependency class T."""
         raw = inspect.getattr_static(T, attr, None)
         try:
             if isinstance(raw, property) and raw.fget is not None:
-                return self._norm_hint(typing.get_type_hints(raw.fget).get("return"))
+                return typing.get_type_hints(raw.fget).get("return")
             if isinstance(raw, functools.cached_property):
-                return self._norm_hint(typing.get_type_hints(raw.func).get("return"))
-            return self._norm_hint(typing.get_type_hints(T).get(attr))
+                return typing.get_type_hints(raw.func).get("return")
+            return typing.get_type_hints(T).get(attr)
         except Exception:
             return None
+
+    def member_type(self, T, attr: str):
+        """Declared type of attribute `attr` of dependency class T (from pulser's annotations)."""
+        return self._norm_hint(self.member_hint(T, attr))
+
+    def element_type(self, h):
+        """T for list[T] / tuple[T, ...] / Iterator[T] / Iterable[T] / Sequence[T] hints."""
+        import collections.abc as cabc
+        origin = typing.get_origin(h)
+        if origin in (list, tuple, set, frozenset, cabc.Iterator, cabc.Iterable, cabc.Sequence,
+                      cabc.Generator, cabc.Collection):
+            args = [a for a in typing.get_args(h) if a is not Ellipsis]
+            if args:
+                return self._norm_hint(args[0])
+        return None
 
 
 # ----------------------------------------------------------------------------- checking
@@ -575,8 +590,14 @@ class Scanner(ast.NodeVisitor):
             elif isinstance(n, (ast.For, ast.AsyncFor, ast.comprehension)):
                 for tg in ast.walk(n.target):
                     if isinstance(tg, ast.Name):
-                        assigned.setdefault(tg.id, []).append(None)
+                        assigned.setdefault(tg.id, []).append(
+                            ("loop", n.iter) if tg is n.target else None)
+        loops = {}
         for name, ts in assigned.items():
+            if len(ts) == 1 and isinstance(ts[0], tuple) and ts[0][0] == "loop":
+                loops[name] = ts[0][1]
+                continue
+            ts = [None if isinstance(t, tuple) else t for t in ts]
             if name not in env and ts[0] is not None and all(t == ts[0] for t in ts):
                 env[name] = ts[0]
             elif name in env and not all(t == env[name] for t in ts):
@@ -584,6 +605,15 @@ class Scanner(ast.NodeVisitor):
         self.qual.append(node.name)
         self.func_stack.append(node)
         self.env_stack.append(env)
+        # `for v in <expr>` where <expr> is `recv.attr` with a dependency hint Iterator[T] / list[T]
+        for name, it in loops.items():
+            if name in env or not isinstance(it, ast.Attribute):
+                continue
+            rt = self.type_of(it.value)
+            if isinstance(rt, Py):
+                et = self.res.element_type(self.res.member_hint(rt.obj, it.attr))
+                if et is not None:
+                    env[name] = Py(et, _qual(et))
         self.generic_visit(node)
         self.env_stack.pop()
         self.func_stack.pop()
